@@ -9,22 +9,6 @@ open Bp
 
 /-! ### list helpers -/
 
-theorem evens_subset {α : Type} (l : List α) : ∀ x ∈ evens l, x ∈ l := by
-  induction l using evens.induct with
-  | case1 => simp [evens]
-  | case2 a => simp [evens]
-  | case3 a b r ih =>
-    intro x hx
-    simp only [evens, List.mem_cons] at hx ⊢
-    rcases hx with h | h
-    · exact Or.inl h
-    · exact Or.inr (Or.inr (ih x h))
-
-theorem evens_single {α : Type} (l : List α) (h : l.length ≤ 1) : evens l = l := by
-  match l, h with
-  | [], _ => rfl
-  | [a], _ => rfl
-
 theorem nodup_map_inj {α β : Type} (f : α → β) (l : List α) (h : (l.map f).Nodup) (a b : α)
     (ha : a ∈ l) (hb : b ∈ l) (hf : f a = f b) : a = b := by
   induction l with
@@ -129,57 +113,97 @@ theorem removeNums_lastNum (c : Ctr) (ns : List Nat) : (c.removeNums ns).lastNum
   | nil => rfl
   | cons n ns ih => simp [Ctr.removeNums, ih, Ctr.removeNum]
 
-/-- a block whose class is not `k` does not carry a number listed in `ctr.block_type(k)` -/
-theorem num_not_in_clsNums (c : Ctr) (h : c.nums.Nodup) (x : Blk) (hx : x ∈ c.blocks) (k : Cls)
-    (hk : x.cls ≠ k) : x.num ∉ c.clsNums k := by
+/-- a block whose type code is not `t` does not carry a number listed in `ctr.block_type(t)` -/
+theorem num_not_in_typeNums (c : Ctr) (h : c.nums.Nodup) (x : Blk) (hx : x ∈ c.blocks) (t : Nat)
+    (ht : x.c.typeCode ≠ t) : x.num ∉ c.typeNums t := by
   intro hm
-  simp only [Ctr.clsNums, List.mem_map, List.mem_filter, beq_iff_eq] at hm
-  obtain ⟨y, ⟨hy, hyk⟩, hn⟩ := hm
+  simp only [Ctr.typeNums, List.mem_map, List.mem_filter, beq_iff_eq] at hm
+  obtain ⟨y, ⟨hy, hyt⟩, hn⟩ := hm
   have : y = x := by
     unfold Ctr.nums at h
     exact nodup_map_inj _ _ h _ _ hy hx hn
   subst this
-  exact hk hyk
+  exact ht hyt
 
-/-! ### removing a whole payload class, adding a block -/
+/-! ### removing every block of a type, adding a block -/
 
 theorem removeNums_sublist (c : Ctr) (ns : List Nat) : (c.removeNums ns).blocks.Sublist c.blocks := by
   induction ns generalizing c with
   | nil => exact List.Sublist.refl _
   | cons n ns ih => exact (ih _).trans List.eraseP_sublist
 
-theorem removeCls_keep (c : Ctr) (k : Cls) (h : c.nums.Nodup) (x : Blk) (hx : x ∈ c.blocks)
-    (hk : x.cls ≠ k) : x ∈ (c.removeNums (evens (c.clsNums k))).blocks := by
+theorem removeType_keep (c : Ctr) (t : Nat) (h : c.nums.Nodup) (x : Blk) (hx : x ∈ c.blocks)
+    (ht : x.c.typeCode ≠ t) : x ∈ (c.removeNums (c.typeNums t)).blocks := by
   rw [mem_removeNums _ _ h]
-  exact ⟨hx, fun hm => num_not_in_clsNums c h x hx k hk (evens_subset _ _ hm)⟩
+  exact ⟨hx, num_not_in_typeNums c h x hx t ht⟩
 
-theorem removeCls_none (c : Ctr) (k : Cls) (h : c.nums.Nodup) (hlen : (c.clsNums k).length ≤ 1) :
-    ∀ x ∈ (c.removeNums (evens (c.clsNums k))).blocks, x.cls ≠ k := by
-  intro x hx hk
-  rw [evens_single _ hlen, mem_removeNums _ _ h] at hx
+theorem removeType_none (c : Ctr) (t : Nat) (h : c.nums.Nodup) :
+    ∀ x ∈ (c.removeNums (c.typeNums t)).blocks, x.c.typeCode ≠ t := by
+  intro x hx ht
+  rw [mem_removeNums _ _ h] at hx
   apply hx.2
-  simp only [Ctr.clsNums, List.mem_map, List.mem_filter, beq_iff_eq]
-  exact ⟨x, ⟨hx.1, hk⟩, rfl⟩
-
-theorem clsNums_len_sublist (l l' : List Blk) (k : Cls) (h : l'.Sublist l) :
-    ((l'.filter (fun b => b.cls == k)).map Blk.num).length ≤ ((l.filter (fun b => b.cls == k)).map Blk.num).length := by
-  simp only [List.length_map]
-  exact (List.Sublist.filter _ h).length_le
+  simp only [Ctr.typeNums, List.mem_map, List.mem_filter, beq_iff_eq]
+  exact ⟨x, ⟨hx.1, ht⟩, rfl⟩
 
 /-- the fresh extension block `CanonicalBlock() / payload` -/
 def newBlk (t n : Nat) (d : Bytes) : Blk :=
   { c := { typeCode := t, blockNum := n, flags := 0, crcType := 0, btsd := some d, crc := none } }
 
-theorem addBlock_spec (c : Ctr) (t : Nat) (pre : Option Nat) (d : Bytes) (r : Ctr × Nat)
-    (h : c.addBlock t pre d = some r) :
+theorem mem_le_maxOf (l : List Nat) (x : Nat) (h : x ∈ l) : x ≤ maxOf l := by
+  induction l with
+  | nil => simp at h
+  | cons a l ih =>
+    simp only [maxOf, List.foldr_cons] at ih ⊢
+    rcases List.mem_cons.1 h with rfl | h
+    · exact Nat.le_max_left _ _
+    · exact Nat.le_trans (ih h) (Nat.le_max_right _ _)
+
+theorem nextFree_fresh (used : List Nat) (fuel n : Nat) (h : ∀ x ∈ used, x < n + fuel) :
+    nextFree used fuel n ∉ used := by
+  induction fuel generalizing n with
+  | zero =>
+    simp only [nextFree]
+    intro hm
+    have := h n hm
+    omega
+  | succ f ih =>
+    simp only [nextFree]
+    split
+    · apply ih
+      intro x hx
+      have := h x hx
+      omega
+    · rename_i hc
+      simpa using hc
+
+/-- `get_block_num()` returns a number that is not in use (the loop's fuel is enough) -/
+theorem getBlockNum_fresh (c : Ctr) : c.getBlockNum ∉ c.used := by
+  unfold Ctr.getBlockNum
+  apply nextFree_fresh
+  intro x hx
+  have := mem_le_maxOf _ _ hx
+  omega
+
+theorem addBlock_isSome (c : Ctr) (t : Nat) (d : Bytes) : ∃ r, c.addBlock t d = some r := by
+  unfold Ctr.addBlock
+  have := getBlockNum_fresh c
+  simp only []
+  rw [if_neg (by simpa using this)]
+  exact ⟨_, rfl⟩
+
+theorem addBlock_spec (c : Ctr) (t : Nat) (d : Bytes) (r : Ctr × Nat)
+    (h : c.addBlock t d = some r) :
     r.2 ∉ c.used ∧ r.1.blocks = insertBeforeLast (newBlk t r.2 d) c.blocks := by
   unfold Ctr.addBlock at h
-  cases pre <;> simp only [] at h <;> split at h <;> simp at h <;> subst h <;>
-    (rename_i hc; exact ⟨by simpa using hc, rfl⟩)
+  simp only [] at h
+  split at h <;> simp at h
+  subst h
+  rename_i hc
+  exact ⟨by simpa using hc, rfl⟩
 
-theorem addBlock_nodup (c : Ctr) (t : Nat) (pre : Option Nat) (d : Bytes) (r : Ctr × Nat)
-    (h : c.addBlock t pre d = some r) (hnd : c.nums.Nodup) : r.1.nums.Nodup := by
-  obtain ⟨h1, h2⟩ := addBlock_spec c t pre d r h
+theorem addBlock_nodup (c : Ctr) (t : Nat) (d : Bytes) (r : Ctr × Nat)
+    (h : c.addBlock t d = some r) (hnd : c.nums.Nodup) : r.1.nums.Nodup := by
+  obtain ⟨h1, h2⟩ := addBlock_spec c t d r h
   unfold Ctr.nums
   rw [h2]
   have hp := (insertBeforeLast_perm (newBlk t r.2 d) c.blocks).map Blk.num
@@ -189,66 +213,55 @@ theorem addBlock_nodup (c : Ctr) (t : Nat) (pre : Option Nat) (d : Bytes) (r : C
   intro hm
   exact h1 (List.mem_cons_of_mem _ hm)
 
-theorem bumpHop_c (b : Blk) : (bumpHop b).c = b.c ∧ (bumpHop b).adminReenc = b.adminReenc
-    ∧ (bumpHop b).parsed = b.parsed ∧ (bumpHop b).cls = b.cls ∧ (bumpHop b).num = b.num := by
+/-- what `bumpHop` leaves alone: everything but the in-memory count and the BTSD cache -/
+theorem bumpHop_keeps (b : Blk) :
+    (bumpHop b).c.typeCode = b.c.typeCode ∧ (bumpHop b).c.blockNum = b.c.blockNum
+    ∧ (bumpHop b).c.flags = b.c.flags ∧ (bumpHop b).c.crcType = b.c.crcType
+    ∧ (bumpHop b).adminReenc = b.adminReenc ∧ (bumpHop b).num = b.num := by
   unfold bumpHop
-  split <;> simp [Blk.cls, Blk.num]
+  split <;> simp [Blk.num]
+
+theorem bumpHop_not_hop (b : Blk) (h : b.isHop = false) : bumpHop b = b := by
+  simp [bumpHop, h]
 
 theorem map_bumpHop_nums (l : List Blk) : (l.map bumpHop).map Blk.num = l.map Blk.num := by
-  simp [List.map_map, Function.comp_def, (bumpHop_c _).2.2.2.2]
+  simp [List.map_map, Function.comp_def, (bumpHop_keeps _).2.2.2.2.2]
 
-/-- the stages of `fwdEdit` when no `add_block` raised -/
+/-- the stages of `fwdEdit` -/
 structure FwdStages (cfg : Cfg) (st : St) (now : Nat) (c0 : Ctr) (out : Ctr) where
   n : Nat
   c2 : Ctr
-  pre6 : Option Nat
-  h2 : (c0.removeNums (evens (c0.clsNums .prev))).addBlock typePrevNode pre6 (encPrevNode cfg.nodeId) = some (c2, n)
+  h2 : (c0.removeNums (c0.typeNums typePrevNode)).addBlock typePrevNode (encPrevNode cfg.nodeId) = some (c2, n)
   hout : (c0.primary.ts.time = 0 ∧
             out = ({ c2 with blocks := c2.blocks.map bumpHop } : Ctr).removeNums
-                    (evens (({ c2 with blocks := c2.blocks.map bumpHop } : Ctr).clsNums .age)))
-         ∨ (c0.primary.ts.time ≠ 0 ∧ ∃ m pre7,
+                    (({ c2 with blocks := c2.blocks.map bumpHop } : Ctr).typeNums typeAge))
+         ∨ (c0.primary.ts.time ≠ 0 ∧ ∃ m,
             (({ c2 with blocks := c2.blocks.map bumpHop } : Ctr).removeNums
-                    (evens (({ c2 with blocks := c2.blocks.map bumpHop } : Ctr).clsNums .age))).addBlock
-              typeAge pre7 (encAge now c0.primary.ts.time) = some (out, m))
+                    (({ c2 with blocks := c2.blocks.map bumpHop } : Ctr).typeNums typeAge)).addBlock
+              typeAge (encAge now c0.primary.ts.time) = some (out, m))
 
-theorem fwdEdit_stages (cfg : Cfg) (st : St) (now : Nat) (c0 : Ctr)
-    (hok : (fwdEdit cfg st now c0).2.2 = true) :
-    Nonempty (FwdStages cfg st now c0 (fwdEdit cfg st now c0).2.1) := by
-  cases hr : (c0.removeNums (evens (c0.clsNums .prev))).addBlock typePrevNode st.stickyPrev
-      (encPrevNode cfg.nodeId) with
-  | none => simp [fwdEdit, hr] at hok
-  | some r =>
-    have hprim : (({ r.1 with blocks := r.1.blocks.map bumpHop } : Ctr).removeNums
-        (evens (({ r.1 with blocks := r.1.blocks.map bumpHop } : Ctr).clsNums .age))).primary = c0.primary := by
-      rw [(removeNums_meta _ _).2.1]
-      exact ((addBlock_meta _ _ _ _ _ hr).2.1).trans (removeNums_meta _ _).2.1
-    by_cases hz : c0.primary.ts.time = 0
-    · have hz' : ((({ r.1 with blocks := r.1.blocks.map bumpHop } : Ctr).removeNums
-          (evens (({ r.1 with blocks := r.1.blocks.map bumpHop } : Ctr).clsNums .age))).primary.ts.time == 0) = true := by
-        rw [hprim]; simpa using hz
-      simp only [fwdEdit, hr, hz', if_true]
-      exact ⟨⟨r.2, r.1, _, hr, Or.inl ⟨hz, rfl⟩⟩⟩
-    · have hz' : ((({ r.1 with blocks := r.1.blocks.map bumpHop } : Ctr).removeNums
-          (evens (({ r.1 with blocks := r.1.blocks.map bumpHop } : Ctr).clsNums .age))).primary.ts.time == 0) = false := by
-        rw [hprim]; simpa using hz
-      simp only [fwdEdit, hr, hz'] at hok ⊢
-      simp only [Bool.false_eq_true, if_false] at hok ⊢
-      rw [hprim] at hok ⊢
-      cases hr2 : (({ r.1 with blocks := r.1.blocks.map bumpHop } : Ctr).removeNums
-          (evens (({ r.1 with blocks := r.1.blocks.map bumpHop } : Ctr).clsNums .age))).addBlock typeAge
-          ({ st with stickyPrev := some (st.stickyPrev.getD r.2) } : St).stickyAge
-          (encAge now c0.primary.ts.time) with
-      | none =>
-        rw [show (timestamp { st with stickyPrev := some (st.stickyPrev.getD r.2) } now).1.stickyAge
-              = ({ st with stickyPrev := some (st.stickyPrev.getD r.2) } : St).stickyAge from by
-            unfold timestamp; split <;> rfl] at hok
-        simp [hr2] at hok
-      | some r2 =>
-        rw [show (timestamp { st with stickyPrev := some (st.stickyPrev.getD r.2) } now).1.stickyAge
-              = ({ st with stickyPrev := some (st.stickyPrev.getD r.2) } : St).stickyAge from by
-            unfold timestamp; split <;> rfl]
-        simp only [hr2]
-        exact ⟨⟨r.2, r.1, _, hr, Or.inr ⟨hz, r2.2, _, hr2⟩⟩⟩
+/-- `_do_fwd`'s edits never raise (fresh block numbers), and go through these stages -/
+theorem fwdEdit_stages (cfg : Cfg) (st : St) (now : Nat) (c0 : Ctr) :
+    (fwdEdit cfg st now c0).2.2 = true
+    ∧ Nonempty (FwdStages cfg st now c0 (fwdEdit cfg st now c0).2.1) := by
+  obtain ⟨r, hr⟩ := addBlock_isSome (c0.removeNums (c0.typeNums typePrevNode)) typePrevNode
+    (encPrevNode cfg.nodeId)
+  have hprim : (({ r.1 with blocks := r.1.blocks.map bumpHop } : Ctr).removeNums
+      (({ r.1 with blocks := r.1.blocks.map bumpHop } : Ctr).typeNums typeAge)).primary = c0.primary := by
+    rw [(removeNums_meta _ _).2.1]
+    exact ((addBlock_meta _ _ _ _ hr).2.1).trans (removeNums_meta _ _).2.1
+  obtain ⟨r2, hr2⟩ := addBlock_isSome (({ r.1 with blocks := r.1.blocks.map bumpHop } : Ctr).removeNums
+      (({ r.1 with blocks := r.1.blocks.map bumpHop } : Ctr).typeNums typeAge)) typeAge
+      (encAge now c0.primary.ts.time)
+  simp only [fwdEdit, hr]
+  rw [hprim]
+  by_cases hz : c0.primary.ts.time = 0
+  · have hz' : (c0.primary.ts.time == 0) = true := by simpa using hz
+    simp only [hz', if_true]
+    exact ⟨trivial, ⟨⟨r.2, r.1, hr, Or.inl ⟨hz, rfl⟩⟩⟩⟩
+  · have hz' : (c0.primary.ts.time == 0) = false := by simpa using hz
+    simp only [hz', Bool.false_eq_true, if_false, hr2]
+    exact ⟨trivial, ⟨⟨r.2, r.1, hr, Or.inr ⟨hz, r2.2, hr2⟩⟩⟩⟩
 
 /-! ### what is encoded -/
 
@@ -298,7 +311,7 @@ def fwdOut (cfg : Cfg) (st : St) (now : Nat) (sp : SendParams) (c0 : Ctr) : Opti
   if (fwdEdit cfg st now c0).2.2 then
     match (sendBundle cfg (fwdEdit cfg st now c0).1 now sp (fwdEdit cfg st now c0).2.1).2.2 with
     | .sent b => some b
-    | .noSender _ => none
+    | _ => none
   else none
 
 theorem applyPrimary_blocks (cfg : Cfg) (st : St) (now : Nat) (c : Ctr) :
@@ -353,37 +366,36 @@ theorem doFwd_tx (cfg : Cfg) (st : St) (now : Nat) (sp : SendParams) (c0 : Ctr) 
       · exact ⟨b, rfl, by simpa using hd⟩
       · obtain ⟨_, _, h⟩ := finishEff_mem _ _ hd
         simp at h
-    | noSender fr =>
-      simp only [hres, fwdFail, finish_eff, List.mem_append] at hd
+    | consumed =>
+      simp only [hres, finish_eff, List.mem_cons] at hd
       rcases hd with hd | hd
-      · cases fr <;> simp at hd
+      · cases hd
       · obtain ⟨_, _, h⟩ := finishEff_mem _ _ hd
         simp at h
+    | noSender =>
+      simp only [hres, fwdFail, finish_eff, List.nil_append] at hd
+      obtain ⟨_, _, h⟩ := finishEff_mem _ _ hd
+      simp at h
 
 /-! ### blocks through `fwdEdit` -/
 
-theorem newBlk_cls6 (n : Nat) (d : Bytes) : (newBlk typePrevNode n d).cls = .prev := by
-  simp [newBlk, Blk.cls, typePrevNode]
-
-theorem newBlk_cls7 (n : Nat) (d : Bytes) : (newBlk typeAge n d).cls = .age := by
-  simp [newBlk, Blk.cls, typeAge, typePrevNode]
-
 theorem bumpHop_newBlk6 (n : Nat) (d : Bytes) : bumpHop (newBlk typePrevNode n d) = newBlk typePrevNode n d := by
-  simp [bumpHop, newBlk_cls6]
+  apply bumpHop_not_hop
+  simp [newBlk, Blk.isHop, typePrevNode, typeHop]
 
 section stages
 variable {cfg : Cfg} {st : St} {now : Nat} {c0 out : Ctr}
 
 /-- container after the previous-node edit and the hop-count bump -/
 def FwdStages.c3 (S : FwdStages cfg st now c0 out) : Ctr := { S.c2 with blocks := S.c2.blocks.map bumpHop }
-/-- … and after removing (every other) age block -/
-def FwdStages.c4 (S : FwdStages cfg st now c0 out) : Ctr := S.c3.removeNums (evens (S.c3.clsNums .age))
+/-- … and after removing the age blocks -/
+def FwdStages.c4 (S : FwdStages cfg st now c0 out) : Ctr := S.c3.removeNums (S.c3.typeNums typeAge)
 
 theorem FwdStages.c1_nodup (_S : FwdStages cfg st now c0 out) (h : c0.nums.Nodup) :
-    (c0.removeNums (evens (c0.clsNums .prev))).nums.Nodup := removeNums_nodup _ _ h
+    (c0.removeNums (c0.typeNums typePrevNode)).nums.Nodup := removeNums_nodup _ _ h
 
 theorem FwdStages.c3_nodup (S : FwdStages cfg st now c0 out) (h : c0.nums.Nodup) : S.c3.nums.Nodup := by
-  have := addBlock_nodup _ _ _ _ _ S.h2 (S.c1_nodup h)
+  have := addBlock_nodup _ _ _ _ S.h2 (S.c1_nodup h)
   unfold FwdStages.c3 Ctr.nums
   rw [map_bumpHop_nums]
   exact this
@@ -393,46 +405,48 @@ theorem FwdStages.c4_nodup (S : FwdStages cfg st now c0 out) (h : c0.nums.Nodup)
 
 theorem FwdStages.c3_blocks (S : FwdStages cfg st now c0 out) :
     S.c3.blocks = (insertBeforeLast (newBlk typePrevNode S.n (encPrevNode cfg.nodeId))
-      (c0.removeNums (evens (c0.clsNums .prev))).blocks).map bumpHop := by
-  have := (addBlock_spec _ _ _ _ _ S.h2).2
+      (c0.removeNums (c0.typeNums typePrevNode)).blocks).map bumpHop := by
+  have := (addBlock_spec _ _ _ _ S.h2).2
   simp only [FwdStages.c3]
   rw [this]
 
 theorem FwdStages.out_cases (S : FwdStages cfg st now c0 out) :
     (c0.primary.ts.time = 0 ∧ out = S.c4)
-    ∨ (c0.primary.ts.time ≠ 0 ∧ ∃ m pre7,
-        S.c4.addBlock typeAge pre7 (encAge now c0.primary.ts.time) = some (out, m)) := S.hout
+    ∨ (c0.primary.ts.time ≠ 0 ∧ ∃ m,
+        S.c4.addBlock typeAge (encAge now c0.primary.ts.time) = some (out, m)) := S.hout
 
 theorem FwdStages.out_nodup (S : FwdStages cfg st now c0 out) (h : c0.nums.Nodup) : out.nums.Nodup := by
-  rcases S.out_cases with ⟨_, he⟩ | ⟨_, m, pre7, h5⟩
+  rcases S.out_cases with ⟨_, he⟩ | ⟨_, m, h5⟩
   · rw [he]; exact S.c4_nodup h
-  · exact addBlock_nodup _ _ _ _ _ h5 (S.c4_nodup h)
+  · exact addBlock_nodup _ _ _ _ h5 (S.c4_nodup h)
 
 /-- blocks of the edited container, one direction: where each of them comes from -/
 theorem FwdStages.mem_out (S : FwdStages cfg st now c0 out) (h : c0.nums.Nodup) (y : Blk) (hy : y ∈ out.blocks) :
     y = newBlk typePrevNode S.n (encPrevNode cfg.nodeId)
     ∨ (c0.primary.ts.time ≠ 0 ∧ ∃ m, y = newBlk typeAge m (encAge now c0.primary.ts.time))
-    ∨ (∃ x ∈ c0.blocks, y = bumpHop x ∧ x.num ∉ evens (c0.clsNums .prev)
-        ∧ y.num ∉ evens (S.c3.clsNums .age)) := by
+    ∨ (∃ x ∈ c0.blocks, y = bumpHop x ∧ x.c.typeCode ≠ typePrevNode ∧ x.c.typeCode ≠ typeAge) := by
   have hc4 : ∀ y ∈ S.c4.blocks, y = newBlk typePrevNode S.n (encPrevNode cfg.nodeId)
-      ∨ (∃ x ∈ c0.blocks, y = bumpHop x ∧ x.num ∉ evens (c0.clsNums .prev) ∧ y.num ∉ evens (S.c3.clsNums .age)) := by
+      ∨ (∃ x ∈ c0.blocks, y = bumpHop x ∧ x.c.typeCode ≠ typePrevNode ∧ x.c.typeCode ≠ typeAge) := by
     intro y hy
+    have hy7 := removeType_none S.c3 typeAge (S.c3_nodup h) y hy
     simp only [FwdStages.c4] at hy
     rw [mem_removeNums _ _ (S.c3_nodup h)] at hy
-    obtain ⟨hy3, hyn⟩ := hy
+    obtain ⟨hy3, _⟩ := hy
     rw [S.c3_blocks, List.mem_map] at hy3
     obtain ⟨x, hx, rfl⟩ := hy3
     rw [mem_insertBeforeLast] at hx
     rcases hx with rfl | hx
     · exact Or.inl (bumpHop_newBlk6 _ _)
-    · rw [mem_removeNums _ _ h] at hx
-      exact Or.inr ⟨x, hx.1, rfl, hx.2, hyn⟩
-  rcases S.out_cases with ⟨_, he⟩ | ⟨hz, m, pre7, h5⟩
+    · have hx6 := removeType_none c0 typePrevNode h x hx
+      rw [mem_removeNums _ _ h] at hx
+      rw [(bumpHop_keeps x).1] at hy7
+      exact Or.inr ⟨x, hx.1, rfl, hx6, hy7⟩
+  rcases S.out_cases with ⟨_, he⟩ | ⟨hz, m, h5⟩
   · rw [he] at hy
     rcases hc4 y hy with h1 | h1
     · exact Or.inl h1
     · exact Or.inr (Or.inr h1)
-  · rw [(addBlock_spec _ _ _ _ _ h5).2, mem_insertBeforeLast] at hy
+  · rw [(addBlock_spec _ _ _ _ h5).2, mem_insertBeforeLast] at hy
     rcases hy with rfl | hy
     · exact Or.inr (Or.inl ⟨hz, m, rfl⟩)
     · rcases hc4 y hy with h1 | h1
@@ -441,36 +455,36 @@ theorem FwdStages.mem_out (S : FwdStages cfg st now c0 out) (h : c0.nums.Nodup) 
 
 theorem FwdStages.c4_sub_out (S : FwdStages cfg st now c0 out) (y : Blk) (hy : y ∈ S.c4.blocks) :
     y ∈ out.blocks := by
-  rcases S.out_cases with ⟨_, he⟩ | ⟨hz, m, pre7, h5⟩
+  rcases S.out_cases with ⟨_, he⟩ | ⟨hz, m, h5⟩
   · rw [he]; exact hy
-  · rw [(addBlock_spec _ _ _ _ _ h5).2, mem_insertBeforeLast]
+  · rw [(addBlock_spec _ _ _ _ h5).2, mem_insertBeforeLast]
     exact Or.inr hy
 
-/-- the other direction: blocks that are neither previous-node nor age blocks stay (with the
-    in-memory hop count bumped) -/
+/-- the other direction: blocks that are neither previous-node nor age blocks stay (a dissected
+    hop-count block with its count bumped and its cache dropped) -/
 theorem FwdStages.keep (S : FwdStages cfg st now c0 out) (h : c0.nums.Nodup) (x : Blk) (hx : x ∈ c0.blocks)
-    (h6 : x.cls ≠ .prev) (h7 : x.cls ≠ .age) : bumpHop x ∈ out.blocks := by
+    (h6 : x.c.typeCode ≠ typePrevNode) (h7 : x.c.typeCode ≠ typeAge) : bumpHop x ∈ out.blocks := by
   apply S.c4_sub_out
   simp only [FwdStages.c4]
-  apply removeCls_keep _ _ (S.c3_nodup h)
+  apply removeType_keep _ _ (S.c3_nodup h)
   · rw [S.c3_blocks]
     apply List.mem_map_of_mem
     rw [mem_insertBeforeLast]
-    exact Or.inr (removeCls_keep _ _ h x hx h6)
-  · rw [(bumpHop_c x).2.2.2.1]; exact h7
+    exact Or.inr (removeType_keep _ _ h x hx h6)
+  · rw [(bumpHop_keeps x).1]; exact h7
 
 /-- the new previous-node block is in the edited container -/
 theorem FwdStages.new6_mem (S : FwdStages cfg st now c0 out) (h : c0.nums.Nodup) :
     newBlk typePrevNode S.n (encPrevNode cfg.nodeId) ∈ out.blocks := by
   apply S.c4_sub_out
   simp only [FwdStages.c4]
-  apply removeCls_keep _ _ (S.c3_nodup h)
+  apply removeType_keep _ _ (S.c3_nodup h)
   · rw [S.c3_blocks]
     rw [← bumpHop_newBlk6]
     apply List.mem_map_of_mem
     rw [mem_insertBeforeLast]
     exact Or.inl rfl
-  · rw [newBlk_cls6]; decide
+  · simp [newBlk, typePrevNode, typeAge]
 
 end stages
 
@@ -514,12 +528,12 @@ variable {cfg : Cfg} {st : St} {now : Nat} {c0 out : Ctr}
 
 /-- a last block that is neither a previous-node nor an age block stays last -/
 theorem FwdStages.last (S : FwdStages cfg st now c0 out) (h : c0.nums.Nodup) (p : Blk)
-    (hl : c0.blocks.getLast? = some p) (h6 : p.cls ≠ .prev) (h7 : p.cls ≠ .age) :
+    (hl : c0.blocks.getLast? = some p) (h6 : p.c.typeCode ≠ typePrevNode) (h7 : p.c.typeCode ≠ typeAge) :
     out.blocks.getLast? = some (bumpHop p) := by
   have hp := getLast_mem _ _ hl
-  have h1 : (c0.removeNums (evens (c0.clsNums .prev))).blocks.getLast? = some p :=
-    removeNums_getLast _ _ _ hl (fun hm => num_not_in_clsNums c0 h p hp _ h6 (evens_subset _ _ hm))
-  have hne : (c0.removeNums (evens (c0.clsNums .prev))).blocks ≠ [] := by
+  have h1 : (c0.removeNums (c0.typeNums typePrevNode)).blocks.getLast? = some p :=
+    removeNums_getLast _ _ _ hl (num_not_in_typeNums c0 h p hp _ h6)
+  have hne : (c0.removeNums (c0.typeNums typePrevNode)).blocks ≠ [] := by
     intro he; rw [he] at h1; simp at h1
   have h3 : S.c3.blocks.getLast? = some (bumpHop p) := by
     rw [S.c3_blocks, List.getLast?_map, insertBeforeLast_getLast _ _ hne, h1]; rfl
@@ -527,30 +541,11 @@ theorem FwdStages.last (S : FwdStages cfg st now c0 out) (h : c0.nums.Nodup) (p 
   have h4 : S.c4.blocks.getLast? = some (bumpHop p) := by
     simp only [FwdStages.c4]
     apply removeNums_getLast _ _ _ h3
-    intro hm
-    exact num_not_in_clsNums S.c3 (S.c3_nodup h) _ hp3 .age (by rw [(bumpHop_c p).2.2.2.1]; exact h7)
-      (evens_subset _ _ hm)
-  rcases S.out_cases with ⟨_, he⟩ | ⟨hz, m, pre7, h5⟩
+    exact num_not_in_typeNums S.c3 (S.c3_nodup h) _ hp3 typeAge (by rw [(bumpHop_keeps p).1]; exact h7)
+  rcases S.out_cases with ⟨_, he⟩ | ⟨hz, m, h5⟩
   · rw [he]; exact h4
-  · rw [(addBlock_spec _ _ _ _ _ h5).2, insertBeforeLast_getLast _ _ (by intro he; rw [he] at h4; simp at h4)]
+  · rw [(addBlock_spec _ _ _ _ h5).2, insertBeforeLast_getLast _ _ (by intro he; rw [he] at h4; simp at h4)]
     exact h4
-
-/-- length of the age-class list of the container the age loop runs on -/
-theorem FwdStages.age_len (S : FwdStages cfg st now c0 out) :
-    (S.c3.clsNums .age).length ≤ (c0.clsNums .age).length := by
-  simp only [Ctr.clsNums, List.length_map]
-  rw [S.c3_blocks, List.filter_map]
-  simp only [List.length_map]
-  have hf : (fun b => b.cls == Cls.age) ∘ bumpHop = (fun b => b.cls == Cls.age) := by
-    funext b; simp [(bumpHop_c b).2.2.2.1]
-  rw [hf]
-  have hp := (insertBeforeLast_perm (newBlk typePrevNode S.n (encPrevNode cfg.nodeId))
-      (c0.removeNums (evens (c0.clsNums .prev))).blocks).filter (fun b => b.cls == Cls.age)
-  rw [hp.length_eq]
-  have : ((newBlk typePrevNode S.n (encPrevNode cfg.nodeId)).cls == Cls.age) = false := by
-    rw [newBlk_cls6]; decide
-  rw [List.filter_cons_of_neg (by simp [this])]
-  exact (List.Sublist.filter _ (removeNums_sublist _ _)).length_le
 
 end stages2
 
@@ -600,9 +595,6 @@ theorem nodup_of_map {α β : Type} (f : α → β) (l : List α) (h : (l.map f)
 
 def isType (t : Nat) (y : Canonical) : Bool := y.typeCode == t
 
-theorem hop_cls (x : Blk) (ht : x.c.typeCode = typeHop) (hp : x.parsed = true) : x.cls = .hop := by
-  simp [Blk.cls, ht, hp, typeHop, typePrevNode, typeAge]
-
 theorem count_types (bs : List Blk) (crcs : List Bytes) (t : Nat) :
     ((finalBlocks bs crcs).filter (isType t)).length = (bs.filter (fun x => x.c.typeCode == t)).length := by
   induction bs generalizing crcs with
@@ -612,42 +604,6 @@ theorem count_types (bs : List Blk) (crcs : List Bytes) (t : Nat) :
     have : isType t { b.c with btsd := b.wireBtsd, crc := (takeCrc b.c.crcType crcs).1 } = (b.c.typeCode == t) := rfl
     rw [this]
     split <;> simp [ih]
-
-/-- blocks of one type in the edited container, when the received bundle has at most one
-    dissected block of the class the loop removes -/
-theorem typed_blocks (cfg : Cfg) (st : St) (now : Nat) (c0 out : Ctr) (S : FwdStages cfg st now c0 out)
-    (hnd : c0.nums.Nodup) (y : Blk) (hy : y ∈ out.blocks) :
-    (y.c.typeCode = typePrevNode → (∀ x ∈ c0.blocks, x.c.typeCode = typePrevNode → x.parsed = true) →
-      (c0.clsNums .prev).length ≤ 1 → y = newBlk typePrevNode S.n (encPrevNode cfg.nodeId))
-    ∧ (y.c.typeCode = typeAge → (∀ x ∈ c0.blocks, x.c.typeCode = typeAge → x.parsed = true) →
-      (c0.clsNums .age).length ≤ 1 →
-        c0.primary.ts.time ≠ 0 ∧ ∃ m, y = newBlk typeAge m (encAge now c0.primary.ts.time)) := by
-  rcases S.mem_out hnd y hy with rfl | ⟨hz, m, rfl⟩ | ⟨x, hx, rfl, hn6, hn7⟩
-  · exact ⟨fun _ _ _ => rfl, fun h => by simp [newBlk, typeAge, typePrevNode] at h⟩
-  · exact ⟨fun h => by simp [newBlk, typeAge, typePrevNode] at h, fun _ _ _ => ⟨hz, m, rfl⟩⟩
-  · constructor
-    · intro ht hp hl
-      exfalso
-      rw [(bumpHop_c x).1] at ht
-      have hc : x.cls = .prev := by simp [Blk.cls, hp x hx ht, ht]
-      rw [evens_single _ hl] at hn6
-      apply hn6
-      simp only [Ctr.clsNums, List.mem_map, List.mem_filter, beq_iff_eq]
-      exact ⟨x, ⟨hx, hc⟩, rfl⟩
-    · intro ht hp hl
-      exfalso
-      rw [(bumpHop_c x).1] at ht
-      have hc : (bumpHop x).cls = .age := by
-        rw [(bumpHop_c x).2.2.2.1]
-        simp [Blk.cls, hp x hx ht, ht, typeAge, typePrevNode]
-      rw [evens_single _ (Nat.le_trans S.age_len hl)] at hn7
-      apply hn7
-      simp only [Ctr.clsNums, List.mem_map, List.mem_filter, beq_iff_eq]
-      refine ⟨bumpHop x, ⟨?_, hc⟩, rfl⟩
-      rw [S.c3_blocks]
-      apply List.mem_map_of_mem
-      rw [mem_insertBeforeLast, mem_removeNums _ _ hnd]
-      exact Or.inr ⟨hx, hn6⟩
 
 end Agent
 end DtnVerif
